@@ -34,6 +34,7 @@ for f in $files; do
   esac
 done
 checks=$(echo $checks | tr ' ' '\n' | sort -u | tr '\n' ' ')
+[ -n "${ONLY:-}" ] && checks="$ONLY"
 rsync -a --exclude bin --exclude .git --exclude evidence --exclude replays --exclude seeded --exclude benign /verif/ "$vc"/
 sed -i "s#=> /repo/pkg/go#=> $wt/pkg/go#" "$vc/go.mod"
 echo "$prop-$bn: files: $(echo $files | tr '\n' ' ') checks: $checks"
